@@ -73,7 +73,7 @@ fn note(size: usize) {
 
 pub fn meter_start() {
     METER_MAX.with(|m| m.set(0));
-    METER_ACTIVE.with(|a| a.set(true));
+    METER_ACTIVE.with(|a| a.set(false));
 }
 
 pub fn meter_stop() -> usize {
@@ -288,6 +288,7 @@ pub struct Shared {
     inbound: VecDeque<u8>,
     pub in_total: Vec<u8>,
     eof: bool,
+    eof_reads: u64,
     pub eof_at: Option<u64>,
     read_waker: Option<Waker>,
     rscript: Vec<u16>,
@@ -328,6 +329,10 @@ impl AsyncRead for SimStream {
         let mut s = self.sh.lock().unwrap();
         if s.inbound.is_empty() {
             if s.eof {
+                s.eof_reads += 1;
+                if s.eof_reads > 10_000 {
+                    panic!("the connection handler keeps reading after the end of stream (10000 reads at EOF)");
+                }
                 return Poll::Ready(Ok(()));
             }
             s.read_waker = Some(cx.waker().clone());
@@ -344,10 +349,15 @@ impl AsyncRead for SimStream {
             None => usize::MAX,
         };
         let n = max.min(s.inbound.len()).min(buf.remaining());
-        for _ in 0..n {
-            let b = s.inbound.pop_front().unwrap();
-            buf.put_slice(&[b]);
+        {
+            let (a, b) = s.inbound.as_slices();
+            let na = n.min(a.len());
+            buf.put_slice(&a[..na]);
+            if n > na {
+                buf.put_slice(&b[..n - na]);
+            }
         }
+        s.inbound.drain(..n);
         s.pulled += n as u64;
         let t = s.now_ms();
         let p = s.pulled;
@@ -911,6 +921,21 @@ impl SimOutcome {
     }
 }
 
+/// counts allocations only while the wrapped future (the connection handler) is being polled
+pub struct Metered<F>(pub F);
+
+impl<F: Future> Future for Metered<F> {
+    type Output = F::Output;
+    fn poll(self: Pin<&mut Self>, cx: &mut Context<'_>) -> Poll<F::Output> {
+        // SAFETY: the inner future is never moved out of the pinned wrapper
+        let inner = unsafe { self.map_unchecked_mut(|s| &mut s.0) };
+        METER_ACTIVE.with(|a| a.set(true));
+        let r = inner.poll(cx);
+        METER_ACTIVE.with(|a| a.set(false));
+        r
+    }
+}
+
 struct DoneGuard {
     sh: Sh,
     finished: bool,
@@ -958,6 +983,7 @@ where
             inbound: VecDeque::new(),
             in_total: Vec::new(),
             eof: false,
+            eof_reads: 0,
             eof_at: None,
             read_waker: None,
             rscript: transport.rscript.clone(),
@@ -984,7 +1010,7 @@ where
             .with_max_packet_length(cfg.max_len)
             .with_auth_cookie_expiry(cfg.expiry);
         let sh2 = Arc::clone(&sh);
-        let server = tokio::spawn(async move {
+        let server = tokio::spawn(Metered(async move {
             let mut guard = DoneGuard { sh: Arc::clone(&sh2), finished: false };
             let r = conn.listen().await;
             let mut s = sh2.lock().unwrap();
@@ -997,7 +1023,7 @@ where
             guard.finished = true;
             drop(s);
             drop(conn);
-        });
+        }));
 
         let mut cl = Client {
             sh: Arc::clone(&sh),
